@@ -209,6 +209,18 @@ def case(ctx, rng, idx, state):
                   what=f"{nm} at cartesian k", witness=wit)
 
     # ---------------- DIFF: run() with numerical vs analytic derivatives
+    ctx.count(f"convention_{model.convention}")
+    if model.box != "kmax":
+        ctx.count("noncubic_boxes")
+    if model.sparse or model.degree < 3:
+        # the scale of a run() comparison is the result with analytic derivatives, which is only safe for a generic
+        # model: a model with dropped monomials or of degree < 3 has structurally vanishing results (H depending on
+        # one k-component: zero Berry curvature; linear + one cosine: rank-1 inverse mass, zero classical Hall
+        # term - both observed as 1e-25 vs 1e-32 "differences").  Only full cubic polynomials (+ cosines) are run.
+        ctx.count("nongeneric_model_run_part_skipped")
+        if checked_orders:
+            ctx.nontrivial(("sparse", nb, model.degree, model.convention, model.box, nvec))
+        return
     geom_ok = nb >= 2
     pool_s = STATIC_BAND + (STATIC_GEOM if geom_ok else [])
     pool_t = TAB_BAND + (TAB_GEOM if geom_ok else [])
@@ -290,16 +302,13 @@ def case(ctx, rng, idx, state):
     if checked_orders >= {1, 2, 3}:
         ctx.nontrivial((nb, model.degree, model.convention, model.box, model.ntrig > 0, nvec,
                         tuple(int(x) for x in NK), tetra, round(math.log10(model.finite_diff_dk))))
-    if model.box != "kmax":
-        ctx.count("noncubic_boxes")
-    ctx.count(f"convention_{model.convention}")
     ctx.sample(wit)
 
 
 if __name__ == "__main__":
     harness.main(
         PROP, "exploration", case, setup_fn=setup,
-        tiers=dict(quick=dict(cases=16, shards=8, time=300), thorough=dict(cases=400, shards=16, time=900)),
+        tiers=dict(quick=dict(cases=24, shards=8, time=300), thorough=dict(cases=640, shards=16, time=900)),
         rule="random k.p models H(x)=sum C_a x^a (+ A cos(q.x+phi)), Hermitian complex coefficients, degree 1-3, 1-4 "
              "bands, box given by kmax (0.02-5) / diagonal, tetragonal, hexagonal, fcc, bcc, triclinic recip_lattice / "
              "triclinic real_lattice (reciprocal vectors 0.2-8 1/A), "
@@ -310,7 +319,7 @@ if __name__ == "__main__":
         assumptions=["analytic derivatives from explicit differentiation of the coefficient table (vlib/gen_kp.py)",
                      "finite-difference bound a priori from the model's sup-norm bounds and the stencil step; "
                      "stencil constants capped by 10 h^2 and 5/h",
-                     "run(): relative bound = 30 x sum of relative derivative bounds of the orders the calculator "
+                     "run() part only for generic models (full cubic polynomial, optional cosines); relative bound = 30 x sum of relative derivative bounds of the orders the calculator "
                      "was observed to request; scale = max |result with analytic derivatives| (generic coefficients)",
                      "grids with an odd number of points per direction only; k-points for the derivative comparison "
                      "at least 0.08 (reduced) away from the box boundary"],
